@@ -904,6 +904,133 @@ static std::vector<long> det_ids(int n, uint64_t &s) {
   for (int i = 0; i < n; ++i) out.push_back(ids[size_t(q[size_t(i)])]);
   return out;
 }
+// one enumerated case: ids, attributes, orders and the relabelling are a deterministic function of (n, edge list, s)
+static bool emit_enum_graph(int n, const std::vector<std::pair<int, int>> &es, uint64_t s, const char *cls, bool relabel,
+                            const std::function<bool(const json &)> &emit) {
+  auto ep = det_perm(int(es.size()), s);
+  json edges = json::array();
+  for (int k : ep) {
+    auto e = es[size_t(k)];
+    if (smix(s) & 1)
+      edges.push_back({e.second, e.first});
+    else
+      edges.push_back({e.first, e.second});
+  }
+  json names = json::array(), masses = json::array();
+  int amode = int(smix(s) % 3);  // 0 homogeneous, 1 two names, 2 names and masses
+  for (int i = 0; i < n; ++i) {
+    uint64_t rnd = smix(s);
+    names.push_back(amode == 0 ? "C" : ((rnd & 1) ? "C" : "H"));
+    masses.push_back(amode == 2 ? ((rnd & 2) ? 12.0 : 1.0) : 12.0);
+  }
+  json c{{"n", n}, {"ids", det_ids(n, s)}, {"edges", edges}, {"names", names}, {"masses", masses}, {"class", cls}};
+  if (relabel) {
+    c["ids2"] = det_ids(n, s);
+    c["bead_order1"] = det_perm(n, s);
+    c["bead_order2"] = det_perm(n, s);
+    c["edge_order1"] = det_perm(int(es.size()), s);
+    c["edge_order2"] = det_perm(int(es.size()), s);
+    json fl = json::array();
+    for (size_t i = 0; i < es.size(); ++i) fl.push_back(int(smix(s) & 1));
+    c["flip2"] = fl;
+    int v = int(smix(s) % uint64_t(n));
+    if (smix(s) & 1)
+      c["mut"] = json{{"v", v}, {"kind", "name"}, {"name", "O"}};
+    else
+      c["mut"] = json{{"v", v}, {"kind", "mass"}, {"mass", 16.0}};
+  }
+  return emit(c);
+}
+
+// Exhaustive enumeration BY CLASS up to nmax vertices (quick 10, thorough 12): every rooted tree (canonical level
+// sequences, Beyer-Hedetniemi successor: contains every free tree, chains and stars included), every ring, every
+// ring with a tail (one junction), every pair of rings sharing a vertex, every theta graph (two junctions joined by
+// three chains = fused rings), and every disjoint union of two members of {isolated vertex, chain, ring, star} -
+// the classes the statement names.  Vertices are numbered along the construction and then relabelled by emit_enum_graph.
+typedef std::vector<std::pair<int, int>> EL;
+static EL shifted(const EL &e, int off) {
+  EL o;
+  for (auto &x : e) o.push_back({x.first + off, x.second + off});
+  return o;
+}
+static EL chain_el(int n) { EL e; for (int i = 0; i + 1 < n; ++i) e.push_back({i, i + 1}); return e; }
+static EL ring_el(int n) { EL e = chain_el(n); e.push_back({n - 1, 0}); return e; }
+static EL star_el(int n) { EL e; for (int i = 1; i < n; ++i) e.push_back({0, i}); return e; }
+static bool enum_classes(int nmax, bool relabel, const std::function<bool(const json &)> &emit) {
+  uint64_t k = 0;
+  auto out = [&](int n, const EL &e, const char *cls) { return emit_enum_graph(n, e, (++k) * 2654435761ull + uint64_t(n), cls, relabel, emit); };
+  // rooted trees by level sequence
+  for (int n = 1; n <= nmax; ++n) {
+    std::vector<int> L(static_cast<size_t>(n));
+    for (int i = 0; i < n; ++i) L[size_t(i)] = i + 1;  // the chain, lexicographically largest
+    for (;;) {
+      EL e;
+      std::vector<int> last(static_cast<size_t>(n) + 2, -1);
+      for (int i = 0; i < n; ++i) {
+        int lv = L[size_t(i)];
+        if (lv > 1) e.push_back({last[size_t(lv - 1)], i});
+        last[size_t(lv)] = i;
+      }
+      if (!out(n, e, "enum-tree")) return false;
+      // successor: p = last position with level > 2, q = its parent; copy the block [q, p) periodically
+      int pp = n - 1;
+      while (pp >= 0 && L[size_t(pp)] <= 2) --pp;
+      if (pp < 0) break;  // the star was the last one
+      int q = pp - 1;
+      while (L[size_t(q)] != L[size_t(pp)] - 1) --q;
+      for (int i = pp; i < n; ++i) L[size_t(i)] = L[size_t(i - (pp - q))];
+    }
+  }
+  for (int r = 3; r <= nmax; ++r) {
+    if (!out(r, ring_el(r), "enum-ring")) return false;
+    for (int t = 1; r + t <= nmax; ++t) {  // tadpole: tail of t vertices on ring vertex 0
+      EL e = ring_el(r);
+      e.push_back({0, r});
+      for (int i = 0; i + 1 < t; ++i) e.push_back({r + i, r + i + 1});
+      if (!out(r + t, e, "enum-ring-tail")) return false;
+    }
+    for (int r2 = r; r + r2 - 1 <= nmax; ++r2) {  // two rings sharing vertex 0
+      EL e = ring_el(r);
+      e.push_back({0, r});
+      for (int i = 0; i + 1 < r2 - 1; ++i) e.push_back({r + i, r + i + 1});
+      e.push_back({r + r2 - 2, 0});
+      if (!out(r + r2 - 1, e, "enum-rings-sharing-vertex")) return false;
+    }
+  }
+  // theta graphs: junctions 0 and 1, three chains with a <= b <= c inner vertices, at most one of them empty
+  for (int a = 0; a <= nmax; ++a)
+    for (int b = std::max(a, 1); 2 + a + b <= nmax; ++b)
+      for (int c3 = b; 2 + a + b + c3 <= nmax; ++c3) {
+        EL e;
+        int nxt = 2;
+        for (int len : {a, b, c3}) {
+          int prev = 0;
+          for (int i = 0; i < len; ++i) {
+            e.push_back({prev, nxt});
+            prev = nxt++;
+          }
+          e.push_back({prev, 1});
+        }
+        if (!out(nxt, e, "enum-fused-rings")) return false;
+      }
+  // disjoint unions of two parts
+  struct Part { int n; EL e; };
+  std::vector<Part> parts;
+  for (int n = 1; n <= nmax - 1; ++n) {
+    parts.push_back({n, chain_el(n)});
+    if (n >= 3) parts.push_back({n, ring_el(n)});
+    if (n >= 4) parts.push_back({n, star_el(n)});
+  }
+  for (size_t i = 0; i < parts.size(); ++i)
+    for (size_t j = i; j < parts.size(); ++j) {
+      if (parts[i].n + parts[j].n > nmax) continue;
+      EL e = parts[i].e;
+      for (auto &x : shifted(parts[j].e, parts[i].n)) e.push_back(x);
+      if (!out(parts[i].n + parts[j].n, e, "enum-mixture")) return false;
+    }
+  return true;
+}
+
 static void enum_graphs(int level, bool relabel, const std::function<bool(const json &)> &emit) {
   for (int n = 1; n <= std::min(level, 7); ++n) {
     int m = n * (n - 1) / 2;
@@ -927,41 +1054,10 @@ static void enum_graphs(int level, bool relabel, const std::function<bool(const 
       std::vector<std::pair<int, int>> es;
       for (int k = 0; k < m; ++k)
         if (mask >> k & 1) es.push_back(pairs[size_t(k)]);
-      auto ep = det_perm(int(es.size()), s);
-      json edges = json::array();
-      for (int k : ep) {
-        auto e = es[size_t(k)];
-        if (smix(s) & 1)
-          edges.push_back({e.second, e.first});
-        else
-          edges.push_back({e.first, e.second});
-      }
-      json names = json::array(), masses = json::array();
-      int amode = int(smix(s) % 3);  // 0 homogeneous, 1 two names, 2 names and masses
-      for (int i = 0; i < n; ++i) {
-        uint64_t rnd = smix(s);
-        names.push_back(amode == 0 ? "C" : ((rnd & 1) ? "C" : "H"));
-        masses.push_back(amode == 2 ? ((rnd & 2) ? 12.0 : 1.0) : 12.0);
-      }
-      json c{{"n", n}, {"ids", det_ids(n, s)}, {"edges", edges}, {"names", names}, {"masses", masses}, {"class", "enum"}};
-      if (relabel) {
-        c["ids2"] = det_ids(n, s);
-        c["bead_order1"] = det_perm(n, s);
-        c["bead_order2"] = det_perm(n, s);
-        c["edge_order1"] = det_perm(int(es.size()), s);
-        c["edge_order2"] = det_perm(int(es.size()), s);
-        json fl = json::array();
-        for (size_t i = 0; i < es.size(); ++i) fl.push_back(int(smix(s) & 1));
-        c["flip2"] = fl;
-        int v = int(smix(s) % uint64_t(n));
-        if (smix(s) & 1)
-          c["mut"] = json{{"v", v}, {"kind", "name"}, {"name", "O"}};
-        else
-          c["mut"] = json{{"v", v}, {"kind", "mass"}, {"mass", 16.0}};
-      }
-      if (!emit(c)) return;
+      if (!emit_enum_graph(n, es, s, "enum", relabel, emit)) return;
     }
   }
+  enum_classes(std::min(level + 5, 12), relabel, emit);
 }
 static void enum_plain(int level, const std::function<bool(const json &)> &emit) { enum_graphs(level, false, emit); }
 // the cheap, already well covered subs stop at 6 vertices; the 7-vertex sweep is spent on reduce / equiv / breakinto
